@@ -62,6 +62,38 @@ def programs(tier):
                 ["sprobe", "S2"], ["probe"]]
         progs.append({"objects": {}, "main": main, "tasks": {}, "env": [],
                       "label": f"{k1}({d1}) > {k2}({d2}) shield switched on after entry, a={a}"})
+    # a deadline of exactly -inf (what current_effective_deadline() reports under a cancelled
+    # scope, and what people pass on to move_on_at / CancelScope in cleanup code)
+    for k2 in ("scope", "move_on_after", "move_on_at", "fail_after", "fail_at"):
+        for sh in (False, True):
+            for d1 in (1, "inf"):
+                s2 = ["try", [["scope", "S2", {"kind": k2, "deadline": "-inf", "shield": sh},
+                               [["sleep", 1], ["probe"]]]], {"timeout": []}]
+                s1 = ["try", [["scope", "S1", {"kind": "scope", "deadline": d1},
+                               [["cp"], s2, ["cp"], ["probe"],
+                                ["set_deadline", "S1", "-inf"], ["sleep", 1], ["probe"]]]],
+                      {"timeout": []}]
+                main = [s1, ["sprobe", "S1"], ["sprobe", "S2"], ["sleep", 3], ["sprobe", "S1"],
+                        ["sprobe", "S2"], ["probe"]]
+                progs.append({"objects": {}, "main": main, "tasks": {}, "env": [],
+                              "label": f"{k2}(-inf, shield={sh}) inside scope({d1}), then -inf "
+                                       f"assigned to the outer deadline"})
+    # several re-assignments in a row, with time passing in between (a timer of an earlier
+    # deadline may fire as a no-op, or be kept, before the deadline becomes finite again)
+    vals = ["inf", ["rel", 1], ["rel", 3]]
+    steps = [(v, x) for v in vals for x in (1, 2)]
+    for k1 in ("scope", "move_on_after", "fail_after"):
+        for d1 in (1, 2, "inf"):
+            for seq in itertools.product(steps, repeat=2 if tier == "quick" else 3):
+                body = []
+                for v, x in seq:
+                    body += [["set_deadline", "S1", v], ["sleep", x], ["probe"]]
+                s1 = ["try", [["scope", "S1", {"kind": k1, "deadline": d1}, body + [["sleep", 4],
+                                                                                   ["probe"]]]],
+                      {"timeout": []}]
+                main = [s1, ["sprobe", "S1"], ["sleep", 6], ["sprobe", "S1"], ["probe"]]
+                progs.append({"objects": {}, "main": main, "tasks": {}, "env": [],
+                              "label": f"{k1}({d1}) deadline re-assigned {seq}"})
     if tier != "quick":
         # depth 3, group with a child inside deadline scopes
         for d1, d2, d3 in itertools.product([1, 2, 4, "inf"], repeat=3):
@@ -153,7 +185,8 @@ def check(program, ex):
             for sc in stack:
                 if sc.name == ev[6][0]:
                     val = ev[6][1]
-                    val = INF if val == "inf" else (T + val[1] if isinstance(val, list) else val)
+                    val = (INF if val == "inf" else -INF if val == "-inf"
+                           else (T + val[1] if isinstance(val, list) else val))
                     if sc.fired(T)[1]:
                         sc.rearmed_after_fire = True
                     sc.hist.append((T, val))
